@@ -46,6 +46,8 @@ type scenario struct {
 	// compileFails: the Thrift file does not compile (no model comparison: whether plugins are started at
 	// all before that is the host's choice; whatever was started is owed the whole conversation)
 	compileFails bool
+	// extraArgs: further host options (the host-refuses scenarios: options the host rejects by itself)
+	extraArgs []string
 	hang    bool // the generator expects the host to block (short timeout)
 }
 
@@ -244,6 +246,9 @@ func runScenario(sc scenario, idx int) runResult {
 			args = append(args, "-p", p.name)
 		}
 	}
+	for _, a := range sc.extraArgs {
+		args = append(args, strings.ReplaceAll(a, "{dir}", dir))
+	}
 	args = append(args, filepath.Join(dir, "src", "root.thrift"))
 	tmo := 20 * time.Second
 	if sc.hang {
@@ -349,8 +354,24 @@ func (res runResult) answer(sc scenario) string {
 // compile). It must exit with a failure, and a plugin it has started by then — if any — must still get
 // its goodbye after a successful handshake, see its pipes closed and be reaped.
 func c16CompileFails(c *checker) {
-	for n := 1; n <= 3; n++ {
-		sc := scenario{label: fmt.Sprintf("compile-fails x%d", n), coreOK: true, compileFails: true}
+	type refusal struct {
+		label        string
+		compileFails bool
+		extra        []string
+	}
+	// the host's own reasons to fail, with plugins named on the command line: the file does not compile;
+	// an --output-file that is not a .go file (seeded change C16-64: the test was moved behind the start
+	// of the plugins and in front of the deferred Close); an --output-file with a directory part; a
+	// --thrift-root that does not contain the file
+	refusals := []refusal{
+		{"compile-fails", true, nil},
+		{"output-file-not-go", false, []string{"--output-file", "all.txt"}},
+		{"output-file-no-extension", false, []string{"--output-file", "all"}},
+		{"thrift-root-elsewhere", false, []string{"--thrift-root", "{dir}/scripts"}},
+	}
+	for ri := 0; ri < 3*len(refusals); ri++ {
+		n, rf := 1+ri/len(refusals), refusals[ri%len(refusals)]
+		sc := scenario{label: fmt.Sprintf("%s x%d", rf.label, n), coreOK: true, compileFails: rf.compileFails, extraArgs: rf.extra}
 		for i := 0; i < n; i++ {
 			sc.plugins = append(sc.plugins, conforming(pluginNames[i]))
 		}
@@ -358,7 +379,7 @@ func c16CompileFails(c *checker) {
 		op := sc.label
 		ans := fmt.Sprintf("exit=%d timedOut=%v views=%v", res.exit, res.timedOut, res.views)
 		c.rep.Case(op, true)
-		c.rep.Hist("how", "compile-fails")
+		c.rep.Hist("how", "host-refuses: "+rf.label)
 		fail := func(kind, why string) {
 			c.oracle("C16 "+kind, op, ans, sc.label+": "+why+" | stderr: "+firstLine(res.stderr))
 		}
@@ -367,7 +388,7 @@ func c16CompileFails(c *checker) {
 			continue
 		}
 		if res.exit == 0 {
-			fail("exit status 0 although compilation failed", "")
+			fail("exit status 0 although the host had to refuse ("+rf.label+")", "")
 		}
 		if len(res.survivors) > 0 {
 			fail("surviving child process", fmt.Sprint("plugin processes still running after the host exited: ", res.survivors))
